@@ -111,6 +111,12 @@ struct World {
 	int                  hh_srv[3]   = {-1, -1, -1};
 	nng_http_server     *srv[2]  = {nullptr, nullptr};
 	nng_http_client     *cli[2]  = {nullptr, nullptr};
+	// a live client connection to an in-process server (set up with no fault armed): request-building calls are enumerated on it
+	nng_http            *hconn   = nullptr;
+	nng_http_server     *hsrv    = nullptr;
+	nng_http_client     *hcl     = nullptr;
+	std::string          huri    = "/";
+	std::map<std::string, std::string> hhdr;
 	int  pid_salt = 0;
 	long faults = 0, enomem = 0, calls = 0, recovered = 0;
 	int  opidx = 0;
@@ -261,6 +267,14 @@ final_cleanup(World &W)
 	for (auto &c : W.cli)
 		if (c)
 			nng_http_client_free(c);
+	if (W.hconn)
+		nng_http_close(W.hconn);
+	if (W.hcl)
+		nng_http_client_free(W.hcl);
+	if (W.hsrv) {
+		nng_http_server_stop(W.hsrv);
+		nng_http_server_release(W.hsrv);
+	}
 }
 
 static void
@@ -926,6 +940,91 @@ exec_c20p(const vcase *vc)
 			}
 			continue;
 		}
+		if (n == "hconn") {
+			if (W.hconn)
+				continue;
+			nng_url *u = nullptr;
+			if (nng_url_parse(&u, "http://127.0.0.1:0") != 0)
+				continue;
+			int port = 0;
+			if (nng_http_server_hold(&W.hsrv, u) != 0 || nng_http_server_start(W.hsrv) != 0 || nng_http_server_get_port(W.hsrv, &port) != 0) {
+				if (W.hsrv)
+					nng_http_server_release(W.hsrv);
+				W.hsrv = nullptr;
+				nng_url_free(u);
+				continue;
+			}
+			nng_url_free(u);
+			char ub[64];
+			snprintf(ub, sizeof ub, "http://127.0.0.1:%d/", port);
+			nng_aio *ca = nullptr;
+			if (nng_url_parse(&u, ub) == 0 && nng_http_client_alloc(&W.hcl, u) == 0 && nng_aio_alloc(&ca, NULL, NULL) == 0) {
+				nng_http_client_connect(W.hcl, ca);
+				nng_aio_wait(ca);
+				if (nng_aio_result(ca) == 0) {
+					W.hconn = (nng_http *) nng_aio_get_output(ca, 0);
+					W.huri  = nng_http_get_uri(W.hconn) ? nng_http_get_uri(W.hconn) : "";
+					vr_tag("http_connection");
+				}
+			}
+			if (ca)
+				nng_aio_free(ca);
+			if (u)
+				nng_url_free(u);
+			vs_settle();
+			continue;
+		}
+		if (n == "huri") {
+			if (!W.hconn)
+				continue;
+			// URIs below and above the connection's inline buffer, with and without a query
+			std::string uri = "/" + std::string((size_t) (s < 0 ? 0 : s > 3000 ? 3000 : s), 'u');
+			bool        hasq = a1 != 0;
+			std::string q   = hasq ? "k=v" : "";
+			std::string want = q.empty() ? uri : uri + "?" + q;
+			auto same = [&](long j) {
+				const char *cur = nng_http_get_uri(W.hconn);
+				if (cur == nullptr || W.huri != cur)
+					vr_fail("C20:state-changed-by-failed-call", "nng_http_set_uri failed with NNG_ENOMEM (allocation %ld) but the URI now reads '%.40s' (%zu bytes), was %zu bytes", j,
+					    cur ? cur : "(null)", cur ? strlen(cur) : 0, W.huri.size());
+			};
+			int rv = enumerate(W, "nng_http_set_uri", 0, [&] { return (int) nng_http_set_uri(W.hconn, uri.c_str(), hasq ? q.c_str() : NULL); }, same);
+			if (rv == 0) {
+				const char *cur = nng_http_get_uri(W.hconn);
+				if (cur == nullptr || want != cur)
+					vr_fail("C20:call-result", "nng_http_set_uri: URI reads '%.40s' (%zu bytes), expected %zu bytes", cur ? cur : "(null)", cur ? strlen(cur) : 0, want.size());
+				W.huri = want;
+			}
+			continue;
+		}
+		if (n == "hhdr") {
+			if (!W.hconn)
+				continue;
+			static const char *names[] = {"X-One", "X-Two", "Accept", "X-Long-Header-Name-For-Testing"};
+			std::string        nm = names[(size_t) (s < 0 ? 0 : s) % 4];
+			std::string        val((size_t) (a1 < 0 ? 0 : a1 > 500 ? 500 : a1), 'v');
+			bool               add = a2 != 0;
+			// (a client connection reads back response headers only: request headers are judged by crash / leak / later use)
+			auto same = [&](long) {};
+			int rv = enumerate(W, add ? "nng_http_add_header" : "nng_http_set_header", 0,
+			    [&] { return (int) (add ? nng_http_add_header(W.hconn, nm.c_str(), val.c_str()) : nng_http_set_header(W.hconn, nm.c_str(), val.c_str())); }, same);
+			if (rv == 0) {
+				if (add && W.hhdr.count(nm))
+					W.hhdr[nm] += ", " + val;
+				else
+					W.hhdr[nm] = val;
+			}
+			same(0);
+			continue;
+		}
+		if (n == "hbody") {
+			if (!W.hconn)
+				continue;
+			bytes d  = mk(a2, (size_t) (a1 < 0 ? 0 : a1 > 5000 ? 5000 : a1));
+			int   rv = enumerate(W, "nng_http_copy_body", 0, [&] { return (int) nng_http_copy_body(W.hconn, ptr(d), d.size()); }, [&](long) {});
+			(void) rv; // (a client connection reads back the response body only)
+			continue;
+		}
 		if (n == "exchange") {
 			sanity_exchange(W);
 			continue;
@@ -1067,7 +1166,7 @@ gen_op()
 		break;
 	}
 	case 5: { // http objects
-		switch (*pbt::range<int>(0, 9)) {
+		switch (*pbt::range<int>(0, 14)) {
 		case 0:
 		case 1: t << "hnew " << *pbt::range<int>(0, 2) << " " << *pbt::range<int>(0, 4) << " " << *pbt::range<int>(0, 999); break;
 		case 2: t << "hfree " << *pbt::range<int>(0, 2); break;
@@ -1077,7 +1176,12 @@ gen_op()
 		case 6: t << "sadd " << *pbt::range<int>(0, 1) << " " << *pbt::range<int>(0, 2); break;
 		case 7: t << "sdel " << *pbt::range<int>(0, 1) << " " << *pbt::range<int>(0, 2); break;
 		case 8: t << "serrpage " << *pbt::range<int>(0, 1) << " " << *pbt::range<int>(0, 1); break;
-		default: t << (*pbt::range<int>(0, 2) ? "calloc " : "cfree ") << *pbt::range<int>(0, 1); break;
+		case 9: t << (*pbt::range<int>(0, 2) ? "calloc " : "cfree ") << *pbt::range<int>(0, 1); break;
+		case 10: t << "hconn"; break;
+		case 11: t << "hconn\nhuri " << *gen::element(0, 10, 100, 126, 127, 128, 129, 600, 2500) << " " << *pbt::range<int>(0, 1) << "\nhuri " << *gen::element(0, 10, 127, 128, 600, 2500) << " " << *pbt::range<int>(0, 1); break;
+		case 12: t << "huri " << *gen::element(0, 10, 100, 126, 127, 128, 129, 600, 2500) << " " << *pbt::range<int>(0, 1); break;
+		case 13: t << "hconn\nhhdr " << *pbt::range<int>(0, 3) << " " << *gen::element(0, 1, 20, 300) << " " << *pbt::range<int>(0, 1); break;
+		default: t << "hbody 0 " << *gen::element(0, 1, 100, 4000) << " " << *pbt::range<int>(1, 9); break;
 		}
 		break;
 	}
